@@ -15,12 +15,20 @@ Fixpoint plain_stmt (st : stmt) : bool :=
   | SSet _ _ => false
   | SIf c b1 b2 => plain_cond c && plain_block b1 && plain_block b2
   | SWhile c b1 b2 => plain_cond c && plain_block b1 && plain_block b2
-  | STry b1 _ b2 b3 => plain_block b1 && plain_block b2 && plain_block b3
+  | STry b1 hs b2 b3 => plain_block b1 && plain_blocks hs && plain_block b2 && plain_block b3
   | SWith _ b1 => plain_block b1
   | _ => true
   end
 with plain_block (b : block) : bool :=
-  match b with BNil => true | BCons st r => plain_stmt st && plain_block r end.
+  match b with BNil => true | BCons st r => plain_stmt st && plain_block r end
+with plain_blocks (h : blocks) : bool :=
+  match h with HNil => true | HCons b r => plain_block b && plain_blocks r end.
+
+Lemma plain_hsel hs : forall n h, plain_blocks hs = true -> hsel hs n = Some h -> plain_block h = true.
+Proof.
+  induction hs as [|b r IH]; intros n h P E; simpl in *; [discriminate|].
+  apply andb_true_iff in P; destruct P as [Pb Pr]. destruct n; [injection E as <-; exact Pb | eapply IH; eassumption].
+Qed.
 
 Lemma bflag_inj a b : bflag a = bflag b -> a = b.
 Proof. unfold bflag; lia. Qed.
@@ -70,6 +78,30 @@ Proof. split; [exact (proj1 brk_mono3) | exact (proj1 (proj2 brk_mono3))]. Qed.
 
 Definition bo (o : outcome) : outcome := match o with OBrk => OCont | _ => o end.
 
+(* the handler an exception is dispatched to is lowered like any block, under some loop number kk *)
+Lemma brk_hsel hs : forall f k n h, hsel hs n = Some h ->
+  exists kk, k <= kk /\ hsel (fst (fst (brk_blocks f k hs))) n = Some (fst (fst (brk_block f kk h))) /\
+             (snd (brk_block f kk h) = true -> snd (brk_blocks f k hs) = true).
+Proof.
+  induction hs as [|b r IH]; intros f k n h E; simpl in *; [discriminate|].
+  destruct (brk_block f k b) as [[b' k1] u1] eqn:E1. destruct (brk_blocks f k1 r) as [[r' k2] u2] eqn:E2.
+  destruct n.
+  - injection E as <-. exists k. rewrite E1. simpl. split; [lia|]. split; [reflexivity | intros ->; reflexivity].
+  - destruct (IH f k1 n h E) as [kk [L [Hs Hu]]]. rewrite E2 in Hs, Hu. simpl in *.
+    assert (L1 : k <= k1) by (pose proof (proj1 (proj2 brk_mono3) b f k) as X; rewrite E1 in X; exact X).
+    exists kk. split; [lia|]. split; [exact Hs | intros U; rewrite (Hu U); apply orb_true_r].
+Qed.
+
+Lemma brk_hsel_none hs : forall f k n, hsel hs n = None -> hsel (fst (fst (brk_blocks f k hs))) n = None.
+Proof.
+  induction hs as [|b r IH]; intros f k n E; simpl in *; [reflexivity|].
+  destruct (brk_block f k b) as [[b' k1] u1] eqn:E1. destruct (brk_blocks f k1 r) as [[r' k2] u2] eqn:E2.
+  destruct n; [discriminate|]. simpl. pose proof (IH f k1 n E) as X. rewrite E2 in X. exact X.
+Qed.
+
+Lemma bo_raise o : bo o = ORaise <-> o = ORaise.
+Proof. destruct o; simpl; split; congruence. Qed.
+
 (* what a lowered fragment guarantees about the stores *)
 Definition post (f : flag) (k : nat) (o : outcome) (u : bool) (sl sl' : store) : Prop :=
   (o = OBrk -> sl' f = true /\ u = true) /\ (o <> OBrk -> sl' f = sl f) /\
@@ -100,6 +132,9 @@ Definition ok_block (b : block) (s : store) (d : decisions) (tr : list label) (o
 
 Lemma post_refl f k o sl : o <> OBrk -> post f k o false sl sl.
 Proof. intros N; split; [congruence|]. split; [reflexivity | reflexivity]. Qed.
+
+Lemma post_nonbrk f k o o' u sa sb : o <> OBrk -> o' <> OBrk -> post f k o u sa sb -> post f k o' false sa sb.
+Proof. intros N N' [_ [A2 A3]]. split; [congruence|]. split; [intros _; apply A2, N | exact A3]. Qed.
 
 Lemma outside_mono k k' f : k <= k' -> outside k f -> outside k' f.
 Proof. intros L O j Hj; apply O; lia. Qed.
@@ -281,20 +316,21 @@ Proof.
         eapply RWhileEnd; [simpl; rewrite G1; reflexivity | apply guard_skip, G1].
       - split; [discriminate|]. split; [intros _; exact Kf | intros h Oh Nf; apply Kh; assumption]. }
     split; [apply from_loop_claim; assumption | exact LC].
-  - (* while: return *)
-    intros c body orelse s d tc d1 tr s1 d2 Ec _ IHb P f k Of.
+  - (* while: return / raise *)
+    intros c body orelse s d tc d1 tr o s1 d2 Ec _ IHb Ho P f k Of.
     simpl in P. apply andb_true_iff in P; destruct P as [P Po]. apply andb_true_iff in P; destruct P as [Pc Pb].
-    assert (LC : loop_claim (SWhile c body orelse) f k d (tc ++ tr) ORet d2).
+    assert (Eo : bo o = o) by (destruct Ho as [-> | ->]; reflexivity).
+    assert (LC : loop_claim (SWhile c body orelse) f k d (tc ++ tr) o d2).
     { simpl. pose proof (IHb Pb (bflag k) (S k) (outside_S k)) as IB.
       destruct (brk_block (bflag k) (S k) body) as [[body' k1] used] eqn:E1.
       destruct (brk_block f k1 orelse) as [[orelse' k2] uo] eqn:E2.
       intros sl Hg. destruct (IB sl) as [sl1 [Rb Pb1]]. simpl in Rb, Pb1.
-      destruct (body_keeps f k ORet used sl sl1 Of Pb1) as [Kf Kh].
-      exists sl1. rewrite (ceval_plain c s sl d Pc) in Ec. split.
+      destruct (body_keeps f k o used sl sl1 Of Pb1) as [Kf Kh].
+      exists sl1. rewrite (ceval_plain c s sl d Pc) in Ec. rewrite Eo in *. split.
       - destruct used.
-        + eapply RWhileRet; [simpl; rewrite (Hg eq_refl); exact Ec | exact Rb].
-        + eapply RWhileRet; [exact Ec | exact Rb].
-      - split; [discriminate|]. split; [intros _; exact Kf | intros h Oh Nf; apply Kh; assumption]. }
+        + eapply RWhileOut; [simpl; rewrite (Hg eq_refl); exact Ec | exact Rb | exact Ho].
+        + eapply RWhileOut; [exact Ec | exact Rb | exact Ho].
+      - split; [intros ->; destruct Ho; discriminate|]. split; [intros _; exact Kf | intros h Oh Nf; apply Kh; assumption]. }
     split; [apply from_loop_claim; assumption | exact LC].
   - (* with *)
     intros l body s d tr o s' d' _ IHb P f k Of. split; [|exact I]. intros sl.
@@ -303,7 +339,8 @@ Proof.
     exists sl'. split; [apply run_one; apply RWith; exact R | exact Po].
   - (* try: body completes, else clause, finally *)
     intros body hs orelse final s d tr1 s1 d1 tr2 o2 s2 d2 tr3 s3 d3 _ IHb _ IHo _ IHf P f k Of. split; [|exact I]. intros sl.
-    simpl in P. apply andb_true_iff in P; destruct P as [P P3]. apply andb_true_iff in P; destruct P as [P1 P2].
+    simpl in P. apply andb_true_iff in P; destruct P as [P P3]. apply andb_true_iff in P; destruct P as [P P2].
+    apply andb_true_iff in P; destruct P as [P1 Ph].
     simpl.
     destruct (brk_block f k body) as [[body' k1] u1] eqn:E1.
     destruct (brk_blocks f k1 hs) as [[hs' k2] u2] eqn:E2.
@@ -322,8 +359,9 @@ Proof.
     + eapply post_u_mono; [|eapply post_then_normal; [|eapply post_trans; [|exact Po1|exact Po2]|exact Po3]]; try lia.
       intros H. apply orb_true_iff in H. destruct H as [->| ->]; rewrite ?orb_true_r; reflexivity.
   - (* try: body jumps, finally *)
-    intros body hs orelse final s d tr1 ob s1 d1 tr3 s3 d3 _ IHb Nb _ IHf P f k Of. split; [|exact I]. intros sl.
-    simpl in P. apply andb_true_iff in P; destruct P as [P P3]. apply andb_true_iff in P; destruct P as [P1 P2].
+    intros body hs orelse final s d tr1 ob s1 d1 tr3 s3 d3 _ IHb Nb Nr _ IHf P f k Of. split; [|exact I]. intros sl.
+    simpl in P. apply andb_true_iff in P; destruct P as [P P3]. apply andb_true_iff in P; destruct P as [P P2].
+    apply andb_true_iff in P; destruct P as [P1 Ph].
     simpl.
     destruct (brk_block f k body) as [[body' k1] u1] eqn:E1.
     destruct (brk_blocks f k1 hs) as [[hs' k2] u2] eqn:E2.
@@ -336,9 +374,56 @@ Proof.
     assert (O3 : outside k3 f) by (eapply outside_mono; [|exact Of]; lia).
     destruct (IHf P3 f k3 O3 sl1) as [sl3 [R3 Po3]]. rewrite E4 in R3, Po3; simpl in R3, Po3.
     exists sl3. simpl. split.
-    + apply run_one. eapply RTryJ; [exact R1 | intros E; apply Nb; apply (proj1 (bo_normal ob)); exact E | exact R3].
+    + apply run_one. eapply RTryJ; [exact R1 | intros E; apply Nb; apply (proj1 (bo_normal ob)); exact E
+                                   | intros E; apply Nr; apply (proj1 (bo_raise ob)); exact E | exact R3].
     + eapply post_u_mono; [|eapply post_then_normal; [|exact Po1|exact Po3]]; try lia.
       intros ->; reflexivity.
+  - (* try: body raises, no handler, finally *)
+    intros body hs orelse final s d tr1 s1 d1 tr3 s3 d3 _ IHb Eh _ IHf P f k Of. split; [|exact I]. intros sl.
+    simpl in P. apply andb_true_iff in P; destruct P as [P P3]. apply andb_true_iff in P; destruct P as [P P2].
+    apply andb_true_iff in P; destruct P as [P1 Ph].
+    simpl.
+    pose proof (brk_hsel_none hs f (snd (fst (brk_block f k body))) _ Eh) as Eh'.
+    destruct (brk_block f k body) as [[body' k1] u1] eqn:E1.
+    destruct (brk_blocks f k1 hs) as [[hs' k2] u2] eqn:E2.
+    destruct (brk_block f k2 orelse) as [[orelse' k3] u3] eqn:E3.
+    destruct (brk_block f k3 final) as [[final' k4] u4] eqn:E4.
+    assert (L1 : k <= k1) by (pose proof (proj1 (proj2 brk_mono3) body f k) as X; rewrite E1 in X; exact X).
+    assert (L2 : k1 <= k2) by (pose proof (proj2 (proj2 brk_mono3) hs f k1) as X; rewrite E2 in X; exact X).
+    assert (L3 : k2 <= k3) by (pose proof (proj1 (proj2 brk_mono3) orelse f k2) as X; rewrite E3 in X; exact X).
+    destruct (IHb P1 f k Of sl) as [sl1 [R1 Po1]]. rewrite E1 in R1, Po1; simpl in R1, Po1.
+    assert (O3 : outside k3 f) by (eapply outside_mono; [|exact Of]; lia).
+    destruct (IHf P3 f k3 O3 sl1) as [sl3 [R3 Po3]]. rewrite E4 in R3, Po3; simpl in R3, Po3.
+    simpl in Eh'; rewrite E2 in Eh'; simpl in Eh'.
+    exists sl3. simpl. split.
+    + apply run_one. eapply RTryU; [exact R1 | exact Eh' | exact R3].
+    + eapply post_u_mono; [|eapply post_then_normal; [|exact Po1|exact Po3]]; try lia.
+      intros ->; reflexivity.
+  - (* try: body raises, handler runs, finally *)
+    intros body hs orelse final s d tr1 s1 d1 h tr2 oh s2 d2 tr3 s3 d3 _ IHb Eh _ IHh _ IHf P f k Of. split; [|exact I]. intros sl.
+    simpl in P. apply andb_true_iff in P; destruct P as [P P3]. apply andb_true_iff in P; destruct P as [P P2].
+    apply andb_true_iff in P; destruct P as [P1 Ph].
+    simpl.
+    destruct (brk_hsel hs f (snd (fst (brk_block f k body))) _ _ Eh) as [kk [Lk [Eh' Hu]]].
+    destruct (brk_block f k body) as [[body' k1] u1] eqn:E1.
+    destruct (brk_blocks f k1 hs) as [[hs' k2] u2] eqn:E2.
+    destruct (brk_block f k2 orelse) as [[orelse' k3] u3] eqn:E3.
+    destruct (brk_block f k3 final) as [[final' k4] u4] eqn:E4.
+    assert (L1 : k <= k1) by (pose proof (proj1 (proj2 brk_mono3) body f k) as X; rewrite E1 in X; exact X).
+    assert (L2 : k1 <= k2) by (pose proof (proj2 (proj2 brk_mono3) hs f k1) as X; rewrite E2 in X; exact X).
+    assert (L3 : k2 <= k3) by (pose proof (proj1 (proj2 brk_mono3) orelse f k2) as X; rewrite E3 in X; exact X).
+    simpl in Lk, Eh', Hu; rewrite E2 in Eh', Hu; simpl in Eh', Hu.
+    destruct (IHb P1 f k Of sl) as [sl1 [R1 Po1]]. rewrite E1 in R1, Po1; simpl in R1, Po1.
+    assert (Ok : outside kk f) by (eapply outside_mono; [|exact Of]; lia).
+    destruct (IHh (plain_hsel _ _ _ Ph Eh) f kk Ok sl1) as [sl2 [R2 Po2]].
+    assert (O3 : outside k3 f) by (eapply outside_mono; [|exact Of]; lia).
+    destruct (IHf P3 f k3 O3 sl2) as [sl3 [R3 Po3]]. rewrite E4 in R3, Po3; simpl in R3, Po3.
+    exists sl3. simpl. split.
+    + apply run_one. eapply RTryH; [exact R1 | exact Eh' | exact R2 | exact R3].
+    + assert (Po1' : post f k ONormal false sl sl1) by (eapply post_nonbrk; [| |exact Po1]; discriminate).
+      eapply post_u_mono; [|eapply post_then_normal; [|eapply post_trans; [|exact Po1'|exact Po2]|exact Po3]]; try lia.
+      simpl. intros U. rewrite (Hu U). rewrite ?orb_true_r. reflexivity.
+  - (* raise *) intros l s d _ f k Of. split; [|exact I]. intros sl. exists sl. simpl. split; [apply run_one; constructor | apply post_refl; discriminate].
   - (* nil *) intros s d _ f k Of sl. exists sl. simpl. split; [constructor | apply post_refl; discriminate].
   - (* cons, first statement completes *)
     intros st r s d tr s1 d1 tr2 o2 s2 d2 _ IHs _ IHr P f k Of sl.
